@@ -229,7 +229,13 @@ def run(ctx):
                 continue
             if r is not a:
                 ctx.distinct((fn.__name__, a.hash()))
-            if len(reloc_lines) < ctx.pick(1500, 20000) and not any(x.annotations for x in [a] + list(a.children_asts())):
+            # the model negates a condition syntactically (`Not c`, flipped comparison); a Boolean (dis)equality BETWEEN Booleans
+            # (`true != q`) negates into something the equality simplifier rewrites (`q`), which the real `If` then recognises as the
+            # negation of the outer condition: outside the modelled fragment of this correspondence (the oracle below still judges it)
+            bool_eq = any(x.op in ("__eq__", "__ne__") and isinstance(x.args[0], claripy.ast.Bool) for x in [a] + list(a.children_asts()))
+            if bool_eq:
+                dist["reloc-skipped:boolean-equality-condition"] += 1
+            if len(reloc_lines) < ctx.pick(1500, 20000) and not bool_eq and not any(x.annotations for x in [a] + list(a.children_asts())):
                 reloc_lines.append("%s %s" % ("excavate" if fn is claripy.excavate_ite else "burrow", E.sexpr(at)))
                 reloc_want.append((fn.__name__, a, r))
             env = equiv(at, rt, rng)
